@@ -41,6 +41,179 @@ TRUSTED = [
 DT = {"f64": np.float64, "f32": np.float32}
 
 
+# --------------------------------------------------------------------------
+# validating proxies around the implementation: whatever the anchored functions do (raise any
+# exception type, return None / a list / a wrong shape, rank or dtype / NaN, modify or alias their
+# input, hang) surfaces as a `Bad` exception, which every call site turns into ctx.fail(input).
+# --------------------------------------------------------------------------
+class Bad(Exception):
+    pass
+
+
+IMPL_TIMEOUT_S = 60
+_HUNG = set()          # functions that already timed out once: not called again in this run
+
+
+def _guard(fn, *a, **k):
+    import signal
+
+    name = getattr(fn, "__name__", str(fn))
+    if name in _HUNG:
+        raise Bad("%s not called: an earlier call did not return within %d s" % (name, IMPL_TIMEOUT_S))
+
+    def on_alarm(signum, frame):
+        _HUNG.add(name)
+        raise Bad("%s did not return within %d s" % (name, IMPL_TIMEOUT_S))
+    use_alarm = hasattr(signal, "SIGALRM")
+    old = None
+    try:
+        if use_alarm:
+            try:
+                old = signal.signal(signal.SIGALRM, on_alarm)
+                signal.setitimer(signal.ITIMER_REAL, IMPL_TIMEOUT_S)
+            except ValueError:      # not in the main thread
+                use_alarm = False
+        try:
+            return fn(*a, **k)
+        except Bad:
+            raise
+        except KeyboardInterrupt:
+            raise
+        except BaseException as e:  # noqa  (SystemExit, GeneratorExit, MemoryError, ... included)
+            raise Bad("raised %s: %s" % (type(e).__name__, str(e)[:200]))
+    finally:
+        if use_alarm:
+            signal.setitimer(signal.ITIMER_REAL, 0)
+            if old is not None:
+                signal.signal(signal.SIGALRM, old)
+
+
+def _real_array(v, what, shape=None, dtype=None, like=None):
+    if not isinstance(v, np.ndarray):
+        raise Bad("%s is %s, not an ndarray" % (what, type(v).__name__))
+    if v.dtype.kind not in "fiu":
+        raise Bad("%s has dtype %s (real array expected)" % (what, v.dtype))
+    if shape is not None and tuple(v.shape) != tuple(shape):
+        raise Bad("%s has shape %s, expected %s" % (what, v.shape, tuple(shape)))
+    if dtype is not None and v.dtype != dtype:
+        raise Bad("%s has dtype %s, expected %s (dtype not preserved)" % (what, v.dtype, dtype))
+    if like is not None and np.all(np.isfinite(like)) and not np.all(np.isfinite(v)):
+        raise Bad("%s contains NaN/inf for a finite input" % what)
+    return v
+
+
+def _scalar(v, what):
+    if isinstance(v, (bool, str, bytes, list, tuple, dict, type(None))):
+        raise Bad("%s is %s, not a number" % (what, type(v).__name__))
+    try:
+        a = np.asarray(v)
+    except Exception:  # noqa
+        raise Bad("%s cannot be read as a number" % what)
+    if a.shape != () or a.dtype.kind not in "fiu":
+        raise Bad("%s is not a real scalar (shape %s, dtype %s)" % (what, a.shape, a.dtype))
+    return float(a)
+
+
+def _tuple(v, k, what):
+    if not isinstance(v, tuple) or len(v) != k:
+        raise Bad("%s returned %s, not a %d-tuple" % (what, type(v).__name__ if not isinstance(v, tuple)
+                                                     else "a %d-tuple" % len(v), k))
+    return v
+
+
+def _untouched(args_before, args_after, result_arrays, what):
+    for b, a in zip(args_before, args_after):
+        if isinstance(a, np.ndarray):
+            if a.shape != b.shape or a.dtype != b.dtype or not np.array_equal(a, b, equal_nan=True):
+                raise Bad("%s modified its input array in place" % what)
+            for r in result_arrays:
+                if isinstance(r, np.ndarray) and r.size and a.size and np.may_share_memory(r, a):
+                    raise Bad("%s returned an array that shares memory with its input (a view, not a new array)" % what)
+
+
+class _Fourier:
+    def __init__(self, mod):
+        self._m = mod
+
+    def fshift(self, w, s, **kw):
+        if isinstance(w, np.ndarray) and not np.iscomplexobj(w):
+            w0 = w.copy()
+            y = _guard(self._m.fshift, w, s, **kw)
+            _real_array(y, "fshift result", shape=w0.shape, dtype=w0.dtype, like=w0)
+            _untouched([w0], [w], [y], "fshift")
+            return y
+        y = _guard(self._m.fshift, w, s, **kw)
+        if not isinstance(y, np.ndarray) or not np.iscomplexobj(y) or (isinstance(w, np.ndarray) and y.shape != w.shape):
+            raise Bad("fshift(complex, ns=) result is %s %s" % (type(y).__name__, getattr(y, "shape", None)))
+        return y
+
+
+class _Utils:
+    def __init__(self, mod):
+        self._m = mod
+
+    def parabolic_max(self, x):
+        x0 = x.copy()
+        r = _tuple(_guard(self._m.parabolic_max, x), 2, "parabolic_max")
+        if x0.ndim == 1:
+            out = (_scalar(r[0], "parabolic_max index"), _scalar(r[1], "parabolic_max value"))
+            if not (np.isfinite(out[0]) and np.isfinite(out[1])) and np.all(np.isfinite(x0)):
+                raise Bad("parabolic_max returned NaN/inf for a finite input")
+            _untouched([x0], [x], [], "parabolic_max")
+            return out
+        out = (_real_array(r[0], "parabolic_max indices", shape=x0.shape[:-1], like=x0),
+               _real_array(r[1], "parabolic_max values", shape=x0.shape[:-1], like=x0))
+        _untouched([x0], [x], [], "parabolic_max")
+        return out
+
+
+class _Waveforms:
+    def __init__(self, mod):
+        self._m = mod
+
+    def wave_shift_corrmax(self, a, b):
+        a0, b0 = a.copy(), b.copy()
+        r = _tuple(_guard(self._m.wave_shift_corrmax, a, b), 2, "wave_shift_corrmax")
+        out = (_real_array(r[0], "wave_shift_corrmax re-aligned copy", shape=b0.shape, like=b0),
+               _scalar(r[1], "wave_shift_corrmax delay"))
+        if not np.isfinite(out[1]):
+            raise Bad("wave_shift_corrmax delay is %r" % out[1])
+        _untouched([a0, b0], [a, b], [out[0]], "wave_shift_corrmax")
+        return out
+
+    def wave_shift_phase(self, a, b, fs):
+        a0, b0 = a.copy(), b.copy()
+        r = _tuple(_guard(self._m.wave_shift_phase, a, b, fs), 2, "wave_shift_phase")
+        out = (_real_array(r[0], "wave_shift_phase re-aligned copy", shape=b0.shape, like=b0),
+               _scalar(r[1], "wave_shift_phase delay"))
+        _untouched([a0, b0], [a, b], [out[0]], "wave_shift_phase")
+        return out
+
+    def shift_waveform(self, wav):
+        w0 = wav.copy()
+        r = _tuple(_guard(self._m.shift_waveform, wav), 2, "shift_waveform")
+        out = (_real_array(r[0], "shift_waveform output", shape=w0.shape, like=w0),
+               _real_array(r[1], "shift_waveform applied shifts", shape=(w0.shape[0],), like=w0))
+        _untouched([w0], [wav], [out[0]], "shift_waveform")
+        return out
+
+    def get_apf_from2spikes(self, a, b, fs):
+        a0, b0 = a.copy(), b.copy()
+        r = _tuple(_guard(self._m.get_apf_from2spikes, a, b, fs), 3, "get_apf_from2spikes")
+        h = a0.shape[0] // 2 + 1
+        out = tuple(_real_array(v, "get_apf_from2spikes output %d" % i, shape=(h,), like=a0) for i, v in enumerate(r))
+        _untouched([a0, b0], [a, b], [], "get_apf_from2spikes")
+        return out
+
+
+def impl():
+    """(fourier, utils, waveforms) validating proxies of the repository under test."""
+    import ibldsp.fourier
+    import ibldsp.utils
+    import ibldsp.waveforms
+    return _Fourier(ibldsp.fourier), _Utils(ibldsp.utils), _Waveforms(ibldsp.waveforms)
+
+
 def tol_of(dt):
     return TOL64 if dt == "f64" else TOL32
 
@@ -50,7 +223,7 @@ def tol_of(dt):
 # --------------------------------------------------------------------------
 def impl_fshift(case):
     """case: {shape, axis, dtype, x (flat list), s (number or list)} -> ndarray."""
-    from ibldsp import fourier
+    fourier, utils, waveforms = impl()
     x = np.array(case["x"], dtype=DT[case["dtype"]]).reshape(case["shape"])
     s = case["s"]
     s = np.array(s, dtype=float) if isinstance(s, list) else s
@@ -189,7 +362,8 @@ def call(ctx, st, what, fn, desc, tags):
     try:
         return fn()
     except Exception as e:  # noqa
-        ctx.fail("%s raised %r" % (what, e), desc, dict(tags, kind="exception"))
+        ctx.fail("%s: %s" % (what, e) if isinstance(e, Bad) else "%s raised %r" % (what, e), desc,
+                 dict(tags, kind="exception"))
         return None
 
 
@@ -215,7 +389,7 @@ def shape_ok(ctx, y, ref, desc):
 def oracle_n(ctx, st, n):
     """All clauses of the property on the impulse basis (+ a random integer
     signal) of length n, through the real fourier.fshift."""
-    from ibldsp import fourier
+    fourier, utils, waveforms = impl()
     rng = ctx.rng
     for dt in ("f64", "f32"):
         if dt == "f32" and n > 64 and rng.random() < 0.5 and not ctx.thorough():
@@ -402,7 +576,7 @@ def oracle_n_light(ctx, st, n):
     """Cheaper pass used for the lengths not given the whole impulse basis: 8 impulses + a
     random integer signal as the traces of one 2-D call; integer shifts vs np.roll,
     identity, per-trace shifts, composition with an integer shift."""
-    from ibldsp import fourier
+    fourier, utils, waveforms = impl()
     rng = ctx.rng
     dt = rng.choice(["f64", "f64", "f32"])
     pos = sorted({0, 1, n // 2, n - 1} | {rng.randrange(n) for _ in range(4)})
@@ -541,7 +715,7 @@ def gen_parab(ctx):
 
 
 def parab_check(ctx, st):
-    from ibldsp import utils
+    fourier, utils, waveforms = impl()
     xs = gen_parab(ctx)
     inputs = [[2, len(x)] + x for x in xs]
     ex = common.Extracted(PROP, "Run")
@@ -641,7 +815,7 @@ def ricker(points, a):
 
 
 def measure_delay(ctx, st):
-    from ibldsp import fourier, waveforms
+    fourier, utils, waveforms = impl()
     worst, resid = 0.0, 0.0
     for (pts, a) in ((121, 6.0), (128, 5.0), (82, 4.0)):
         sp = ricker(pts, a)
@@ -714,7 +888,7 @@ def gen_corr_cases(ctx):
 
 def corr_check(ctx, st, cases=None):
     import scipy.signal
-    from ibldsp import fourier, waveforms
+    fourier, utils, waveforms = impl()
     cases = cases if cases is not None else gen_corr_cases(ctx)
     inputs = [[4, c["N"]] + c["a"] + c["b"] for c in cases]
     ex = common.Extracted(PROP, "Run")
@@ -793,7 +967,7 @@ def delay_bounds(N):
 def delay_sweep(ctx, st):
     """Every waveform length (all residues mod 4, both parities) with a cheap wavelet: integer and
     fractional applied shifts, estimated delay and re-aligned copy; then shift_waveform."""
-    from ibldsp import fourier, waveforms
+    fourier, utils, waveforms = impl()
     rng = ctx.rng
     lengths = range(24, 401) if ctx.thorough() else range(24, 141)
     worst = {"short": 0.0, "long": 0.0, "res_short": 0.0, "res_long": 0.0}
@@ -898,7 +1072,7 @@ def axis_spelling_check(ctx, st):
     """Per-trace shifts on non-square 2-D arrays (including ntr == n//2 + 1, where a shift vector laid
     along the wrong axis still broadcasts), every spelling of the axis (python / NumPy integers,
     negative), shift vector as 1-D array, column, row, integer array; C-, F-ordered and strided inputs."""
-    from ibldsp import fourier
+    fourier, utils, waveforms = impl()
     rng = ctx.rng
     lengths = [4, 8, 16, 30, 31, 45] + [rng.randrange(5, 80) for _ in range(6 if not ctx.thorough() else 30)]
     for n in lengths:
@@ -971,7 +1145,7 @@ def axis_spelling_check(ctx, st):
 # round 2: fshift(W, s, ns=n) on a complex half spectrum, vs the model (op 5)
 # --------------------------------------------------------------------------
 def freq_check(ctx, st):
-    from ibldsp import fourier
+    fourier, utils, waveforms = impl()
     rng = ctx.rng
     cases = []
     for n in list(range(2, 21)) + [rng.randrange(21, 64) for _ in range(6)]:
@@ -1010,7 +1184,7 @@ def freq_check(ctx, st):
 # round 2: get_apf_from2spikes (cross spectrum) vs the model (op 6)
 # --------------------------------------------------------------------------
 def cross_check(ctx, st):
-    from ibldsp import fourier, waveforms
+    fourier, utils, waveforms = impl()
     rng = ctx.rng
     cases = []
     for n in list(range(2, 17)) + [rng.randrange(17, 40) for _ in range(4)]:
@@ -1072,7 +1246,7 @@ def gen_clusters(ctx):
 
 
 def cluster_check(ctx, st, cases=None):
-    from ibldsp import fourier, waveforms
+    fourier, utils, waveforms = impl()
     cases = cases if cases is not None else gen_clusters(ctx)
     inputs = [[7, c["nsp"], c["ntr"], c["nt"]] + [v for sp in c["wf"] for row in sp for v in row] for c in cases]
     outs = common.Extracted(PROP, "Run").run_many(inputs, nproc=4)
@@ -1107,7 +1281,12 @@ def cluster_check(ctx, st, cases=None):
             ctx.disagree("shift_waveform: applied shifts %s differ from the model's %s (median template, peak trace %d, "
                          "-(ipeak - floor(nt/2)))" % (applied.tolist(), mshift.tolist(), o[1]), c)
             rc = 1
-        exp = np.stack([fourier.fshift(wav[i], float(applied[i])) for i in range(c["nsp"])])
+        try:
+            exp = np.stack([fourier.fshift(wav[i], float(applied[i])) for i in range(c["nsp"])])
+        except Exception as e:  # noqa
+            ctx.fail("fshift raised %r" % (e,), c, {"kind": "exception"})
+            rc = 1
+            continue
         if np.max(np.abs(out - exp)) > 1e-9 * 100:
             ctx.fail("shift_waveform: spike i is not fshift(spike i, shift_i) on all its traces", c, {"clause": "realign"})
             rc = 1
@@ -1212,7 +1391,7 @@ def replay(ctx, data):
     if not inp:
         return 1
     print("input:", json.dumps(inp)[:1500])
-    from ibldsp import fourier, utils, waveforms
+    fourier, utils, waveforms = impl()
     kind = inp.get("kind")
     dt = inp.get("dtype", "f64")
     tol = tol_of(dt)
